@@ -3,11 +3,19 @@
 import json, os
 HERE = os.path.dirname(os.path.dirname(os.path.abspath(__file__)))
 
-HOOK_COMMITS = ["2cbbdff"]
-FIX_COMMITS = ["98bc2de", "ed106f3", "491bd24"]
+HOOK_COMMITS = ["2cbbdff", "ac23892"]
+FIX_COMMITS = ["98bc2de", "ed106f3", "491bd24", "dfb98ff", "3df74c4"]
 
 CHECKS = {
  # id: (engine, technique, level text, level note, design ref, has_thorough)
+ "C07": ("rsx", "source-level symbolic execution of ops::call/prepare, SignatureContext::check (all v2/v4 branches) and every generated Operation::call; z3 decides feasibility and entailment of the guard conditions on every path; concrete scenario family replayed on the real build",
+         "all feasible paths (no bound on requests/configurations: every Option/Result/flag is symbolic) are checked for: backend or custom-route call only after check() returned Ok and the access hook (or the default rule) approved, in that order; identity handed on is the payload of check(); check() authenticates only behind a successful comparison with a signature computed under the provider's secret for that key; denials are returned unchanged; no provider => signed requests refused",
+         "trusts the rsx executor and its primitive catalogue (listed in the evidence; helper extractors are uninterpreted fallible functions), validated by 120 concrete scenarios signed by an independent reference signer; what the signature algorithms compute is C05/C06/C10/C11",
+         "DESIGN.md 5/C07", False),
+ "C12": ("kani", "bounded model checking of the compiled path.rs/host.rs (Kani/CBMC, SAT) against references written from the property statement; native counterexample playback",
+         "every path of 0-8 bytes over a traversal-rich alphabet, every bucket name of 0-8 (and 64/65) bytes over an 8-letter alphabet plus dotted-quad families, hosts/base domains of up to 6/3 bytes, key-length limit at 1023/1024/1025; both addressing styles compared byte for byte",
+         "bounds and alphabets as listed per harness in the evidence; memchr replaced by a naive loop; in the structure harnesses check_bucket_name is an arbitrary verdict (the real rules are decided separately); percent-decoding itself is third-party code outside the claim",
+         "DESIGN.md 5/C12", True),
  "C01": ("rsx", "source-level symbolic execution of resolve_route and all Operation::call bodies; z3 decides routing over all method/path-kind/flag/header combinations against the Smithy model; witnesses and counterexamples replayed on the real build",
          "every explored path of the real router (all 2^n query-flag/header subsets symbolically) is compared with the operation the API model assigns to the request shape; each Operation::call is shown to invoke exactly its own backend method once after decoding; one solver witness per router path and one literal request per operation are replayed through S3Service::call",
          "trusts the rsx executor for the closed idiom set (validated by per-path witness replay), the primitive catalogue listed in the evidence, and the leaf contract of OrderedQs/HeaderMap lookups; query values are abstract except the two value tests of the router",
